@@ -92,7 +92,9 @@ def to_linen_var(vs: variablelib.VariableState) -> meta.AxisMetadata:
     linen_type = metadata['linen_meta_type']
     if hasattr(linen_type, 'from_nnx_metadata'):
       return linen_type.from_nnx_metadata({'value': vs.value, **metadata})
-    return linen_type(vs.value, **metadata)
+    # `linen_meta_type` records the box class; it is not one of its fields.
+    fields = {k: v for k, v in metadata.items() if k != 'linen_meta_type'}
+    return linen_type(vs.value, **fields)
   if is_vanilla_variable(vs):
     return vs.value
   return NNXMeta(vs.type, vs.value, metadata)
